@@ -1661,7 +1661,7 @@ fn run(v: &Value) -> Result<String, String> {
             // ---- operation alphabet ----
             #[derive(Clone, Debug)]
             enum Op { Req(&'static str, Option<Value>), Merge(Value), MergeAt(&'static str, Value), Register(&'static str, Value) }
-            let pointers = ["", "/", "/a", "/a/b", "/a/n", "/arr/1", "/arr/7", "/arr/x", "/s/t", "/c~1d", "/t~0", "/u~01", "/f", "/a/g~1h", "/zz/y", "/a~", "/a~2b", "a", "/a/"];
+            let pointers = ["", "/", "/a", "/a/b", "/a/n", "/arr/1", "/arr/7", "/arr/x", "/s/t", "/c~1d", "/t~0", "/u~01", "/f", "/a/g~1h", "/g2", "/zz/y", "/a~", "/a~2b", "a", "/a/"];
             let mut ops: Vec<Op> = Vec::new();
             for p in pointers { ops.push(Op::Req(p, None)); }
             for p in pointers { for val in [json!(5), json!({"b": {"k": 1}})] { ops.push(Op::Req(p, Some(val))); } }
@@ -1674,6 +1674,9 @@ fn run(v: &Value) -> Result<String, String> {
             ops.push(Op::Merge(json!({"a": 9, "q": [1]})));
             for p in ["/a", "/c~1d", "/u~01", "/t~0", "/arr", "/a/b", "/nope", "", "a"] { ops.push(Op::MergeAt(p, json!({"m": 1}))); }
             for p in ["/a/n", "/c~1d/k", "/u~01", "/s/t", "/new/deep", "x~0y", "//x", "//a/b"] { ops.push(Op::Register(p, json!(3))); }
+            // merges over keys that already exist in the target object
+            ops.push(Op::MergeAt("/a", json!({"b": 5, "extra": true})));
+            ops.push(Op::MergeAt("", json!({"s": "merged", "a": {"b": 2}})));
             ops.push(Op::MergeAt("//x", json!({"m": 1})));
             ops.push(Op::Req("//x", None));
             ops.push(Op::Req("//x", Some(json!(5))));
@@ -1686,12 +1689,13 @@ fn run(v: &Value) -> Result<String, String> {
                 let reg = Registry::new();
                 let init = json!({"a": {"b": 1}, "arr": [10, 20], "s": "str", "c/d": 3, "t~": 4, "u~1": 6, "u/": 7});
                 reg.set_root(init.clone());
-                for f in ["/f", "/a/g~1h"] {
+                // the third callable is registered WITHOUT the leading slash; it lives at the pointer /g2 all the same
+                for (f, at) in [("/f", "/f"), ("/a/g~1h", "/a/g~1h"), ("g2", "/g2")] {
                     let c = calls.clone();
-                    let name = f.to_string();
+                    let name = at.to_string();
                     reg.register_function(f, move |b: Option<Value>| { let b = b.unwrap_or(Value::Null); c.lock().unwrap().push((name.clone(), b.clone())); Ok(json!({"called": name, "with": b})) }).map_err(|e| e.to_string())?;
                 }
-                let mut model = Model { doc: init, funcs: vec!["/f".into(), "/a/g~1h".into()], calls: vec![] };
+                let mut model = Model { doc: init, funcs: vec!["/f".into(), "/a/g~1h".into(), "/g2".into()], calls: vec![] };
                 for (step, &i) in idx.iter().enumerate() {
                     let op = ops[i].clone();
                     let ctx = || format!("history {:?} step {step}", idx.iter().map(|j| format!("{:?}", ops[*j])).collect::<Vec<_>>());
